@@ -754,7 +754,7 @@ def gen_c06(rng):
     popped = False
     for _ in range(rng.randint(4, 22)):
         r = rng.random()
-        if r < 0.38 and not popped:
+        if r < 0.38:       # (kills after a yank-pop too: finding K1 is repaired)
             key, tag = rng.choice([("C-k", "killeol"), ("C-u", "killbol"), ("C-w", "killbbig"), ("M-d", "killfword"),
                                    ("M-Backspace", "killbword"), ("C-w", "killbbig"), ("M-d", "killfword")])
             cmds.append(Cmd([key], tag))
@@ -930,7 +930,7 @@ def c06_corr(res, exe, driver, tier, seed, tmp):
                 "reference ring (chronological list of kill-run texts, forward pieces appended / backward pieces prepended, "
                 "char deletes ending a run without entering it, yank = newest, yank-pop = previous, cyclically, only directly "
                 "after a yank) is computed here from the implementation's own observed texts and every yank / yank-pop is compared "
-                "with it. Scripts do not kill again after a yank-pop (class of known finding K1).")
+                "with it (kills after a yank-pop included: they become the newest entry).")
     for c, impl, model, raw in out[:3]:
         res.samples.append({"keys": c.keys, "impl": " ## ".join(impl)[:400]})
 
